@@ -245,7 +245,185 @@ func TestVerifC17Jar(t *testing.T) {
 		}
 	}
 
+	// ---- leg `jarset` (deepening round 3): the client's published key set as a LIST. The model computes LookupKeyID (first entry with
+	// the kid) and compareThumbprint itself from (kid, thumbprint) entries; the harness only supplies thumbprints. Shapes: empty set,
+	// the signer's kid absent / present once / present twice with the right key first or second, entries without kid, case and
+	// white-space variants of the kid, the signer's KEY under other kids, other parties' kids, random sets. Tokens: the client's own
+	// valid request, a request for the client's client_id signed by mallory under mallory's OWN kid (resolves through the DID
+	// resolver, published by nobody), and one signed by mallory under the client's kid.
+	tpOf := func(k jwk.Key) string {
+		if k == nil {
+			return ""
+		}
+		b, err := k.Thumbprint(crypto.SHA256)
+		if err != nil {
+			return ""
+		}
+		return hexOf(b[:8])
+	}
+	type ent struct {
+		kid string
+		key *tokenV2.VKey
+	}
+	mkSet := func(es []ent) (jwk.Set, []map[string]interface{}) {
+		s := jwk.NewSet()
+		desc := []map[string]interface{}{}
+		for _, e := range es {
+			k := e.key.PublicJWK()
+			if e.kid != "" {
+				_ = k.Set(jwk.KeyIDKey, e.kid)
+			}
+			if err := s.AddKey(k); err != nil {
+				continue
+			}
+			desc = append(desc, map[string]interface{}{"kid": k.KeyID(), "tp": tpOf(k)})
+		}
+		return s, desc
+	}
+	setRounds := 1
+	if os.Getenv("VERIF_TIER") == "thorough" {
+		setRounds = 4
+	}
+	for round := 0; round < setRounds; round++ {
+		for ki, signer := range clients {
+			clientID := "https://example.com/oauth2/" + signer.KeyName()
+			other := clients[(ki+1)%len(clients)]
+			claims := map[string]interface{}{"iss": clientID, "client_id": clientID, "aud": "https://example.com/oauth2/verifier", "nonce": "n-1",
+				"response_type": "code", "iat": now.Add(-time.Minute).Unix(), "nbf": now.Add(-time.Minute).Unix(), "exp": now.Add(time.Hour).Unix()}
+			pick := func(b tokenV2.VBase, want string) string {
+				for _, v := range tokenV2.VHostile(r, b, 0) {
+					if v.Name == want {
+						return v.Tok
+					}
+				}
+				return ""
+			}
+			toks := []struct{ name, class, by, tok string }{
+				{"own", "valid", "signer", pick(tokenV2.VNewBase(map[string]interface{}{"typ": "oauth-authz-req+jwt", "kid": signer.KeyID()}, tokenV2.VJSON(claims), signer, other, mallory), "valid")},
+				{"mallory-own-kid", "foreign-signer", "attacker", pick(tokenV2.VNewBase(map[string]interface{}{"typ": "oauth-authz-req+jwt", "kid": mallory.KeyID()}, tokenV2.VJSON(claims), mallory, other, signer), "valid")},
+				{"other-client-own-kid", "foreign-signer", "other", pick(tokenV2.VNewBase(map[string]interface{}{"typ": "oauth-authz-req+jwt", "kid": other.KeyID()}, tokenV2.VJSON(claims), other, signer, mallory), "valid")},
+			}
+			for _, tk := range toks {
+				if tk.tok == "" {
+					t.Fatalf("jarset: no valid variant for %s", tk.name)
+				}
+				info, _ := tokenV2.VAnalyse(tk.tok)
+				verd := map[string]interface{}{}
+				signerKid, claimedClientID, signerTp := "", "", ""
+				if info.Parses && len(info.Sigs) == 1 {
+					signerKid = info.Sigs[0].Kid
+					key, ok := source[signerKid]
+					verd["keyfound"] = ok
+					if ok {
+						if jk, err := jwk.FromRaw(key); err == nil {
+							signerTp = tpOf(jk)
+						}
+						verd["fits"] = tokenV2.VAlgFitsKey(info.Sigs[0].Alg, key)
+						tok, err := jwt.ParseString(tk.tok, jwt.WithKey(jwa.SignatureAlgorithm(info.Sigs[0].Alg), key), jwt.WithVerify(true), jwt.WithValidate(true))
+						verd["verified"] = err == nil
+						if err == nil {
+							if m, err := tok.AsMap(context.Background()); err == nil {
+								claimedClientID = parseJWTClaims(m).get(oauth.ClientIDParam)
+							}
+						}
+					}
+				}
+				var signerKey *tokenV2.VKey
+				for _, k := range append([]*tokenV2.VKey{mallory}, clients...) {
+					if k.KeyID() == signerKid {
+						signerKey = k
+					}
+				}
+				if signerKey == nil {
+					t.Fatalf("jarset: unknown signer kid %q", signerKid)
+				}
+				K, S := signerKid, signerKey
+				didOnly := strings.SplitN(K, "#", 2)[0]
+				shapes := []struct {
+					name string
+					es   []ent
+				}{
+					{"empty", nil},
+					{"only-right", []ent{{K, S}}},
+					{"only-decoy-under-kid", []ent{{K, decoy}}},
+					{"dup-decoy-then-right", []ent{{K, decoy}, {K, S}}},
+					{"dup-right-then-decoy", []ent{{K, S}, {K, decoy}}},
+					{"dup-decoy-decoy-right", []ent{{K, decoy}, {K, mallory}, {K, S}}},
+					{"right-under-other-kid", []ent{{"other-kid", S}}},
+					{"other-then-right", []ent{{"other-kid", decoy}, {K, S}}},
+					{"others-then-decoy", []ent{{"other-kid", S}, {"kid-2", decoy}, {K, decoy}}},
+					{"right-without-kid", []ent{{"", S}}},
+					{"nokid-then-right", []ent{{"", decoy}, {K, S}}},
+					{"kid-upper", []ent{{strings.ToUpper(K), S}}},
+					{"kid-trailing-space", []ent{{K + " ", S}}},
+					{"kid-did-only", []ent{{didOnly, S}}},
+					{"kid-prefix-longer", []ent{{K + "0", S}}},
+					{"clients-own-set", []ent{{signer.KeyID(), signer}}},
+					{"clients-own-set-two-keys", []ent{{signer.KeyID() + "-old", decoy}, {signer.KeyID(), signer}}},
+					{"all-parties-own-keys", []ent{{signer.KeyID(), signer}, {other.KeyID(), other}, {mallory.KeyID(), mallory}}},
+					{"client-and-other", []ent{{signer.KeyID(), signer}, {other.KeyID(), other}}},
+					{"swapped-kids", []ent{{K, signer}, {signer.KeyID(), S}}},
+				}
+				kidPool := []string{K, K, signer.KeyID(), mallory.KeyID(), other.KeyID(), "other-kid", "", strings.ToUpper(K)}
+				keyPool := []*tokenV2.VKey{S, S, signer, mallory, other, decoy}
+				for i := 0; i < 12; i++ {
+					var es []ent
+					for n := r.Intn(5); n > 0; n-- {
+						es = append(es, ent{kidPool[r.Intn(len(kidPool))], keyPool[r.Intn(len(keyPool))]})
+					}
+					shapes = append(shapes, struct {
+						name string
+						es   []ent
+					}{"random-" + strconv.Itoa(i), es})
+				}
+				for _, sh := range shapes {
+					name := "s" + strconv.Itoa(round) + "-" + signer.KeyName() + "-" + tk.name + "@" + sh.name
+					if len(only) > 0 && !only["jarset|"+name] {
+						continue
+					}
+					set, desc := mkSet(sh.es)
+					clientSet, configErr = set, nil
+					vv := map[string]interface{}{"clientid": clientID == claimedClientID, "configok": true, "signertp": signerTp, "set": desc}
+					for k, x := range verd {
+						vv[k] = x
+					}
+					res := "reject:?"
+					func() {
+						defer func() {
+							if p := recover(); p != nil {
+								res = "panic"
+							}
+						}()
+						_, err := j.validate(context.Background(), tk.tok, clientID)
+						if err == nil {
+							res = "accept"
+						} else {
+							var oe oauth.OAuth2Error
+							if errors.As(err, &oe) {
+								res = "reject:" + oe.Description
+							}
+						}
+					}()
+					b, _ := json.Marshal(vJarOp{Op: "consume", C: "jarset", Name: name, Class: tk.class, HAlg: info.Sigs[0].Alg, By: tk.by, Envr: sh.name, Info: info, V: vv})
+					ops.Write(b)
+					ops.WriteByte('\n')
+					impl.WriteString(res + "\n")
+					n++
+				}
+			}
+		}
+	}
+
 	if n == 0 {
 		t.Fatal("nothing generated")
 	}
+}
+
+func hexOf(b []byte) string {
+	const d = "0123456789abcdef"
+	o := make([]byte, 0, 2*len(b))
+	for _, x := range b {
+		o = append(o, d[x>>4], d[x&15])
+	}
+	return string(o)
 }
